@@ -386,7 +386,7 @@ func dump(c Case) string { b, _ := json.Marshal(c); return string(b) }
 // ---------------------------------------------------------------------------------------
 
 var allKeys = []string{"200", "201", "404", "2XX", "4XX", "5XX", "default"}
-var statuses = []int{200, 201, 204, 299, 400, 404, 418, 500, 503, 100, 301, 304, 307, 308, 302, 600, 99, 0}
+var statuses = []int{200, 201, 204, 299, 400, 404, 418, 499, 500, 503, 511, 512, 599, 100, 199, 301, 304, 307, 308, 302, 399, 600, 99, 0}
 
 func enumerate(shard, nshards int, yield func(Case)) {
 	idx := 0
